@@ -84,6 +84,9 @@ Shape(i, a, b) ==
     [] i = 19 -> <<Node("list", <<Node("ntuple", <<a, b>>), [t |-> "range", v |-> 2, d |-> 1, c |-> <<>>]>>), I(0)>>
     [] i = 20 -> <<[t |-> "ipnet", v |-> 30, d |-> 1, c |-> <<>>], a>>
     [] i = 21 -> <<Node("tuple", <<[t |-> "ipnet", v |-> 30, d |-> 1, c |-> <<>>], a>>), b>>
+    \* equal sub-structures in one call (the real side also builds them as ONE shared object: f(v, v), [t, {'a': t}])
+    [] i = 22 -> <<Node("tuple", <<a, b>>), Node("tuple", <<a, b>>)>>
+    [] i = 23 -> <<Node("list", <<Node("tuple", <<a>>), Node("dict", <<SItem(100, Node("tuple", <<a>>))>>), b>>), Node("tuple", <<a>>)>>
     [] OTHER -> <<a, b>>
 \* sets of unhashable things do not exist, and a set holding equal members collapses: keep them distinct and hashable
 ValidShape(i, a, b) == (i \in {4, 5}) => ~EqT(a, b, FALSE)
